@@ -248,7 +248,8 @@ func (multi *MultiEpoch) GetBlock(ctx context.Context, params *old_faithful_grpc
 						txNode, err := epochHandler.GetTransactionByCid(ctx, tcid)
 						if err != nil {
 							klog.Errorf("failed to decode Transaction %s: %v", tcid, err)
-							return nil
+							// do not go on with a hole in the list: it is dereferenced below
+							return fmt.Errorf("failed to decode Transaction %s: %w", tcid, err)
 						}
 						mu.Lock()
 						allTransactionNodes[entryIndex][txI] = txNode
